@@ -73,6 +73,53 @@ func VerifC04Shadow() {
 	vrt.Cover("done")
 }
 
+// VerifC04LoopVars: loop variables of lock-step loops share the function's variables by name:
+// each may already be a parameter or local, or be new; locals introduced in the body and after the
+// loop are yet other variables. All of them are read at the end.
+func VerifC04LoopVars() {
+	p := NewPair()
+	p.steps("setup", false, asg("x", lit()), asg("y", lit()))
+	names := [...]string{"x", "y", "z", "u"}
+	nn := vrt.Param("loopnames", len(names))
+	pk := func(label string) string { return names[vrt.Choice(label, nn)] }
+	par := pk("param")
+	body := []node.Type{}
+	if vrt.Bool("local-before-loop") {
+		body = append(body, asg(pk("local"), lit()))
+	}
+	nv := 1 + vrt.Choice("loop-variables", 3)
+	f := node.For{}
+	for i := 0; i < nv; i++ {
+		v := pk("loop-variable")
+		for _, e := range f.VarRefs.Elems {
+			vrt.Assume(string(e.(node.Name)) != v)
+		}
+		f.VarRefs.Elems = append(f.VarRefs.Elems, nm(v))
+		f.Iterators.Elems = append(f.Iterators.Elems, call("elems", node.List{Elems: []node.Type{lit(), lit()}}))
+	}
+	if vrt.Bool("new-local-in-body") {
+		f.Body = blk(asg("t", bin("+", nm(pk("body-read")), lit())), asg("acc", nm("t")))
+	} else {
+		f.Body = asg("acc", nm(pk("body-read")))
+	}
+	body = append(body, f)
+	if vrt.Bool("new-local-after-loop") {
+		body = append(body, asg("w", lit()))
+	}
+	all := node.List{}
+	for _, n := range names[:nn] {
+		all.Elems = append(all.Elems, nm(n))
+	}
+	all.Elems = append(all.Elems, nm("t"), nm("acc"), nm("w"))
+	body = append(body, all)
+	fd := asg("f", fn(blk(body...), par))
+	vrt.Note("function", Src(fd))
+	p.steps("define", false, fd)
+	p.Step(call("f", lit()), true, "call")
+	p.observe("after-call")
+	vrt.Cover("done")
+}
+
 // VerifC04Closure: a closure captures variables of its defining function; updates made by the
 // definer before it returns are visible, the closure's own assignments are its own, and after the
 // definer has returned the closure keeps seeing the values the variables had then.
